@@ -262,13 +262,17 @@ theorem badgeInit_spec (k : Nat) : badgeInit k = true ↔ (k = 1 ∨ k = 5) := b
     protocol fee rates are the tier's / config's defaults and within their maxima, and BOTH mints pass the
     admission table with the badge that really sits at the badge address of (config, mint). -/
 theorem init_pool_v2_sound (keyA keyB : Nat) (a b : MintIn) (price ts tierTs fee proto : Nat) (p : PoolD) (nt : Bool)
-    (h : initializePoolV2 keyA keyB a b price ts tierTs fee proto = .ok (p, nt)) :
-    keyA < keyB ∧ p.price = price ∧ MIN_SQRT_PRICE_X64 ≤ price ∧ price ≤ MAX_SQRT_PRICE_X64 ∧
+    (wrongAddr : Bool) (h : initializePoolV2 keyA keyB a b price ts tierTs fee proto wrongAddr = .ok (p, nt)) :
+    wrongAddr = false ∧ keyA < keyB ∧ p.price = price ∧ MIN_SQRT_PRICE_X64 ≤ price ∧ price ≤ MAX_SQRT_PRICE_X64 ∧
     p.ts = ts ∧ tierTs = ts ∧ ts ≠ 0 ∧ p.feeRate = fee ∧ fee ≤ MAX_FEE_RATE ∧
     p.protoRate = proto ∧ proto ≤ MAX_PROTOCOL_FEE_RATE ∧ p.tick = ti price ∧ a.badge ≠ 2 ∧ b.badge ≠ 2 ∧
     isSupportedTokenMint a.token2022 a.native a.freeze (badgeInit a.badge) a.tlv = .ok true ∧
     isSupportedTokenMint b.token2022 b.native b.freeze (badgeInit b.badge) b.tlv = .ok true := by
   unfold initializePoolV2 at h
+  split at h
+  · cases h
+  rename_i hwa
+  refine ⟨by cases wrongAddr <;> simp_all, ?_⟩
   split at h
   · cases h
   · rename_i hb
@@ -322,7 +326,7 @@ theorem valid_te_spec (te : Option Nat) (now : Nat) (perm : Bool) (h : isValidTr
 theorem init_pool_af_sound (keyA keyB : Nat) (a b : MintIn) (price proto now : Nat) (te : Option Nat)
     (authMode : Nat) (perm : Bool) (ts fee : Nat) (c : AfConstants) (p : PoolD) (nt : Bool) (t : Nat)
     (h : initializePoolWithAdaptiveFee keyA keyB a b price proto now te authMode perm ts fee c = .ok (p, nt, t)) :
-    authMode ≠ 2 ∧ (perm = true → authMode ≠ 1) ∧
+    authMode ≠ 2 ∧ authMode ≠ 3 ∧ authMode ≠ 4 ∧ (perm = true → authMode ≠ 1) ∧
     keyA < keyB ∧ p.price = price ∧ MIN_SQRT_PRICE_X64 ≤ price ∧ price ≤ MAX_SQRT_PRICE_X64 ∧
     p.ts = ts ∧ ts ≠ 0 ∧ p.feeRate = fee ∧ fee ≤ MAX_FEE_RATE ∧ p.protoRate = proto ∧ proto ≤ MAX_PROTOCOL_FEE_RATE ∧
     isSupportedTokenMint a.token2022 a.native a.freeze (badgeInit a.badge) a.tlv = .ok true ∧
@@ -333,6 +337,9 @@ theorem init_pool_af_sound (keyA keyB : Nat) (a b : MintIn) (price proto now : N
   split at h
   · cases h
   · rename_i h2
+    split at h
+    · cases h
+    rename_i h34
     split at h
     · cases h
     · split at h
@@ -370,7 +377,7 @@ theorem init_pool_af_sound (keyA keyB : Nat) (a b : MintIn) (price proto now : N
                     cases hx : validateConstants ts c with
                     | true => rfl
                     | false => simp [hx] at hc
-                  refine ⟨h2, ?_, h1, f1, h2', h3, f2, h4, f3, h5, f4, h6, verify_mint_sound a _ ha, verify_mint_sound b _ hbb,
+                  refine ⟨h2, fun e => h34 (Or.inl e), fun e => h34 (Or.inr e), ?_, h1, f1, h2', h3, f2, h4, f3, h5, f4, h6, verify_mint_sound a _ ha, verify_mint_sound b _ hbb,
                     hc', ht.symm, valid_te_spec te now perm hte'⟩
                   intro hp ha1
                   apply hperm
